@@ -3,6 +3,7 @@ import time
 
 from . import common as C
 from . import hist
+from . import lim
 
 HIST_PROPS = set(hist.PROPS)
 
@@ -22,6 +23,19 @@ def check(prop, tier):
         rc = verdict.finish()
         print("%s %s: %d evaluations, %d distinct non-trivial, %d violation(s), %.0f s" %
               (prop, tier, cov["evaluations"], cov["distinct_nontrivial"], len(verdict.violations), time.time() - t0))
+        return rc
+    if prop == "C12":
+        n, info = lim.run_check(prop, tier, verdict)
+        if info is None:
+            return 2
+        C.write_evidence(prop, tier, info["seed"], "exploration", info["cov"], time.time() - t0, len(verdict.violations),
+                         assumptions=["g++ 12 -std=gnu++17 -O1 ASan+UBSan; two builds (asserts on, -DNDEBUG)",
+                                      "64-bit size_type limits are exercised through allocators reporting a small max_size() and narrow size_types (same code paths)",
+                                      "single-pass ranges: assign() and insert(end(), ...) are held to length_error + validity only, append() to unchanged size/values (length unknown up front)"],
+                         extra=dict(known_findings=[k[0] for k in verdict.known], notes=verdict.notes))
+        rc = verdict.finish()
+        print("%s %s: %d evaluations, %d distinct non-trivial, %d violation(s), %.0f s" %
+              (prop, tier, info["cov"]["evaluations"], info["cov"]["distinct_nontrivial"], len(verdict.violations), time.time() - t0))
         return rc
     print("unknown property " + prop)
     return 3
@@ -52,6 +66,10 @@ def setup():
     if exe is None:
         print("BUILD-ERROR " + err)
         return 2
+    exes, err = lim.build()
+    if exes is None:
+        print("BUILD-ERROR " + err)
+        return 2
     return 0
 
 
@@ -59,6 +77,7 @@ def claimed():
     out = {}
     for p in sorted(HIST_PROPS):
         out[p] = "fault" if p in ("C05", "C06") else "hist"
+    out["C12"] = "lim"
     return out
 
 
